@@ -10,7 +10,9 @@ from .. import core, tlc
 from ..core import Part, Skip, observe
 
 MC_CFG = "CONSTANTS MaxN = %d\nMaxI = %d\nSPECIFICATION Spec\nINVARIANT LatinHolds\nINVARIANT LatinRejects\nCHECK_DEADLOCK FALSE\n"
-BOXES = [[0.0, 1.0], [-3.0, -1.0], [1e-9, 2e-9], [-1e6, 1e6], [100.0, 100.5], [-0.25, 0.75], [2.0, 1024.0], [-1e-3, 1e-3], [5.0, 5.5]]
+BOXES = [[0.0, 1.0], [-3.0, -1.0], [1e-9, 2e-9], [-1e6, 1e6], [100.0, 100.5], [-0.25, 0.75], [2.0, 1024.0], [-1e-3, 1e-3], [5.0, 5.5],
+         # bounds whose difference / mid-point is not exactly representable
+         [-0.7, 0.1], [0.1, 0.3], [1.0 / 3.0, 3.141592653589793], [1e6 / 7.0, 2e6 / 7.0]]
 
 
 NAMES = ['width', 'height', 'angle', 'x_10', 'x_2', 'zeta', 'beta', 'alpha', 'mass', 'k', 'y', 'c', 'x_1', 'b', 'a']
